@@ -32,6 +32,7 @@ TINY = [
     {"name": "2pub_existing_channel", "pre": ["jobs.a"], "pubs": [[["jobs.a", 0]], [["jobs.a", 0]]], "subs": []},
     {"name": "1pub_1sub_exact", "pre": [], "pubs": [[["jobs.a", 0], ["jobs.a", 1]]], "subs": ["jobs.a"]},
     {"name": "2pub_1sub_wildcard", "pre": ["jobs.b"], "pubs": [[["jobs.a", 0]], [["jobs.b", 0]]], "subs": ["jobs.*"]},
+    {"name": "prefix_related_channels", "pre": ["jobs.1"], "pubs": [[["jobs.10", 0], ["jobs.1", 1]]], "subs": ["jobs.1"]},
     {"name": "2pub_two_new_channels", "pre": [], "pubs": [[["jobs.a", 0], ["jobs.b", 1]], [["jobs.b", 0], ["jobs.a", 1]]], "subs": []},
 ]
 
@@ -126,7 +127,7 @@ def enumerate_scenario(scn: Dict[str, Any], bound: int, col: Collector, cap: int
 
 @st.composite
 def c14_case(draw):
-    chans = ["jobs.a", "jobs.b", "other.c"]
+    chans = ["jobs.a", "jobs.b", "other.c", "jobs.ab", "jobs.a.cfg"]
     pre = draw(st.lists(st.sampled_from(chans), max_size=2, unique=True))
     npubs = draw(st.integers(2, 3))
     pubs = []
@@ -139,7 +140,7 @@ def c14_case(draw):
             seqs[ch] = seqs.get(ch, -1) + 1
             msgs.append([ch, seqs[ch]])
         pubs.append(msgs)
-    subs = draw(st.lists(st.sampled_from(["jobs.a", "jobs.*", "*", "other.c", "*.b"]), min_size=1, max_size=2))
+    subs = draw(st.lists(st.sampled_from(["jobs.a", "jobs.*", "*", "other.c", "*.b", "jobs.?", "jobs.a*", "jobs.*.cfg"]), min_size=1, max_size=2))
     choices = draw(st.lists(st.integers(0, 3), max_size=60))
     # bias towards few preemptions: most decision points keep the current thread
     mask = draw(st.lists(st.integers(0, 5), min_size=len(choices), max_size=len(choices)))
